@@ -51,6 +51,23 @@ Record edone := { e_trace : trace; e_bwd : request; e_oldargs : list val; e_tags
 Inductive want (A : Type) := WOk (a : A) | WErr (e : err).
 Arguments WOk {A}. Arguments WErr {A}.
 
+(* get_subtrace addresses: static addresses, and (for the stacked subtraces of vmap / scan) the element observed *)
+Inductive hop := HAddr (a : addr) | HIdx (j : nat).
+Fixpoint elem_at (t : trace) (j : nat) {struct t} : res trace :=
+  match t with
+  | TVmap inner _ | TScan inner _ _ _ => match nth_error inner j with Some x => Ok x | None => Err EOther end
+  | TSwitch _ _ sub _ _ => elem_at sub j
+  | TMask inner _ _ => elem_at inner j
+  | TDimap inner _ _ => elem_at inner j
+  | TDist _ _ _ _ | TStatic _ _ _ => Err ENotSupported
+  end.
+Fixpoint hops_at (t : trace) (hs : list hop) {struct hs} : res trace :=
+  match hs with
+  | [] => Ok t
+  | HAddr a :: r => do x <- get_inner_trace t a; hops_at x r
+  | HIdx j :: r => do x <- elem_at t j; hops_at x r
+  end.
+
 Inductive step :=
 | StSim (seed : N) (args : list val) (w : want tobs)
 | StGen (seed : N) (c : list (list ckey * val)) (args : list val) (w : want (tobs * Z))
@@ -60,7 +77,7 @@ Inductive step :=
 | StEdit (ti : nat) (seed : N) (q : rterm) (args : list val) (tags : list tagt) (w : want (tobs * Z * bobs))
 | StBwd (ei : nat) (seed : N) (w : want (tobs * Z))     (* apply the backward request of edit ei to its new trace, old arguments *)
 | StPropose (seed : N) (args : list val) (w : want tobs)              (* propose = simulate's choices, score, return value *)
-| StSub (ti : nat) (a : addr) (w : want (Z * list (list ckey * option Z))).   (* get_subtrace: score and choices of the sub-execution *)
+| StSub (ti : nat) (hs : list hop) (w : want (Z * list (list ckey * option Z))).   (* get_subtrace: score and choices of the sub-execution *)
 
 Definition res_ok {A B} (r : res A) (w : want B) (ok : A -> B -> bool) : bool :=
   match r, w with
@@ -107,9 +124,9 @@ Definition run_step (g : gf) (sx : st) (s : step) : bool * st :=
       end
   | StPropose seed args w =>
       (res_ok (simulate g (key_of_seed seed) args) w tobs_ok, sx)
-  | StSub ti a w =>
+  | StSub ti hs w =>
       match nth_error traces ti with
-      | Some t => (res_ok (get_inner_trace t a) w
+      | Some t => (res_ok (hops_at t hs) w
                           (fun x o => Z.eqb (t_score x) (fst o) &&
                                       forallb (fun pw => optZ_eqb (look (t_choices x) (fst pw)) (snd pw)) (snd o)), sx)
       | None => (false, sx)
